@@ -25,9 +25,9 @@ PID = "C08"
 THEOREMS = ["der_roundtrip", "raw_roundtrip", "raw_der_raw", "der_raw_der", "raw_key_lengths_disjoint",
             "sniff_sound_refuted", "sniff_refuted_classes", "sniff_sound_except_known", "sniff_sound_typical",
             "get_signature_normalises", "get_signature_rsa_unchanged", "get_signature_refuted",
-            "verify_reencode_sound_except_known", "verify_reencode_refuted",
+            "verify_candidates_sound",
             "rsa_raw_key_roundtrip", "ecc_raw_key_roundtrip", "pub_parse_raw_keys", "pub_parse_pem_like_masks",
-            "sniff_der_exact", "cli_raw_roundtrip", "cli_raw_p521_refuted"]
+            "sniff_der_exact", "cli_raw_roundtrip"]
 WORKDIR = os.path.join(vlib.WORK, "C08")
 SCRATCH = os.path.join(WORKDIR, "run")
 KEYCACHE = os.path.join(WORKDIR, "keycache")
@@ -607,7 +607,7 @@ def keys_stream(rep, tier, rng, impl):
             ops.append({"op": "export_pub", "id": kid, "enc": enc})
         plist = PARAMS_RSA if kind == "rsa" else PARAMS_ECC
         if not thorough and kind == "rsa" and nums[1].bit_length() > 2048:
-            plist = [p for p in plist if p.get("algorithm") in (None, "sha256", "sha512")]
+            plist = [p for p in plist if p.get("pss_padding") or p.get("algorithm") in (None, "sha256", "sha512")]
         for pi, kw in enumerate(plist):
             nm = 2 if thorough else 1
             for mi in range(nm):
@@ -875,55 +875,201 @@ def keys_stream(rep, tier, rng, impl):
 
 
 # ------------------------------------------------------------------------------------------ stream C: constructed valid signatures
-def recovered_stream(rep, tier, rng, impl):
-    """Valid signatures with chosen (r, s): a public key is *recovered* so that (r, s) is a valid signature of the
-    message; lets us present DER signatures of every length class to PublicKeyEcc.verify_signature."""
+def der_total(a, b):
+    """total DER length of a signature whose INTEGER contents have a and b bytes"""
+    body = 4 + a + b
+    return body + (2 if body < 128 else 3)
+
+
+def recovered_stream(rep, tier, rng, impl, model_ok):
+    """Valid signatures with chosen (r, s): a public key is *recovered* so that (r, s) is a valid signature of the message.
+    Every DER length class (short r and/or s, leading zero bytes, total length equal to / next to the raw size) is presented
+    to PublicKeyEcc.verify_signature, get_matching_key_id_from_signature and `nxpcrypto signature verify`, in DER and raw
+    form, together with single-bit modifications; the verdict is predicted from the model's candidate list (run_case 9)
+    + the independent verifier and must be `True` for every valid signature."""
     thorough = tier == "thorough"
-    ops, chks = [], []
+    cases = []
     for cv in range(3):
         c, sz = O.CURVES[cv], CSIZE[cv]
         amax = sz + 1 if cv < 2 else sz
-        targets = set()
-        for L in (2 * sz, 2 * sz + 1, 2 * sz - 1, WINDOW[cv][0], WINDOW[cv][1], WINDOW[cv][0] - 1, 8):
-            targets.add(L)
-        for L in sorted(targets):
+        pairs = [(1, 1), (1, amax), (amax, 1), (amax, amax), (sz, sz), (sz - 1, sz), (sz, sz - 1), (sz - 1, sz - 1), (sz - 2, sz),
+                 (sz // 2, sz // 2), (2, sz - 3), (sz - 3, 2)]
+        for L in (2 * sz, 2 * sz + 1, 2 * sz - 1, 48, 65, 96, 97, WINDOW[cv][0], WINDOW[cv][1], WINDOW[cv][0] - 1):
+            hits = [(a_, b_) for a_ in range(1, amax + 1) for b_ in range(1, amax + 1) if der_total(a_, b_) == L]
+            if hits:
+                pairs += [hits[0], hits[-1], hits[len(hits) // 2]]
+        if thorough:
+            pairs += [(rng.randint(1, amax), rng.randint(1, amax)) for _ in range(25)]
+        seen = set()
+        for (a_, b_) in pairs:
+            if (a_, b_) in seen:
+                continue
+            seen.add((a_, b_))
+            for _t in range(60):
+                r, s_ = int_with_content_len(rng, a_, c["n"]), int_with_content_len(rng, b_, c["n"])
+                if not r or not s_:
+                    break
+                msg = rng.randbytes(rng.choice([0, 5, 20, 64]))
+                h = ["sha256", "sha384", "sha512"][cv]
+                dg = O.HASHES[h](msg).digest()
+                Q = O.recover_pub(c, dg, r, s_)
+                if Q and O.ecdsa_verify(c, Q, dg, r, s_):
+                    cases.append(dict(cv=cv, r=r, s=s_, msg=msg, Q=Q, dg=dg, id=f"rec{cv}_{len(cases)}"))
+                    break
+    ops, chk = [], []
+    for cv in range(3):
+        D = O.pub_of(O.CURVES[cv], rng.randrange(1, O.CURVES[cv]["n"]))
+        ops.append({"op": "load_pub", "kind": "ecc", "curve": cv, "x": D[0], "y": D[1], "id": f"decoy{cv}"})
+        chk.append(None)
+    presented = []      # (case, form, signature bytes, message bytes)
+    for cs in cases:
+        cv, sz = cs["cv"], CSIZE[cs["cv"]]
+        ops.append({"op": "load_pub", "kind": "ecc", "curve": cv, "x": cs["Q"][0], "y": cs["Q"][1], "id": cs["id"]})
+        chk.append(None)
+        der, raw = O.der_sig(cs["r"], cs["s"]), cs["r"].to_bytes(sz, "big") + cs["s"].to_bytes(sz, "big")
+        for form, sig in (("DER", der), ("raw", raw)):
+            variants = [("valid", sig, cs["msg"])]
             for _ in range(3 if thorough else 1):
-                # find content lengths (a, b) giving total DER length L
-                found = None
-                for _t in range(400):
-                    a = rng.randint(1, amax)
-                    b = rng.randint(1, amax)
-                    r, s = int_with_content_len(rng, a, c["n"]), int_with_content_len(rng, b, c["n"])
-                    if r and s and len(O.der_sig(r, s)) == L:
-                        msg = rng.randbytes(20)
-                        h = ["sha256", "sha384", "sha512"][cv]
-                        dg = O.HASHES[h](msg).digest()
-                        Q = O.recover_pub(c, dg, r, s)
-                        if Q and O.ecdsa_verify(c, Q, dg, r, s):
-                            found = (r, s, msg, Q)
-                            break
-                if not found:
-                    continue
-                r, s, msg, Q = found
-                kid = f"rec{cv}_{L}_{len(ops)}"
-                ops.append({"op": "load_pub", "kind": "ecc", "curve": cv, "x": Q[0], "y": Q[1], "id": kid})
-                chks.append(None)
-                for form, sig in (("DER", O.der_sig(r, s)), ("raw", r.to_bytes(sz, "big") + s.to_bytes(sz, "big"))):
-                    ops.append({"op": "verify", "id": kid, "sig": sig.hex(), "data": msg.hex(), "kw": {}})
-                    chks.append((cv, form, sig, msg, Q, r, s))
+                variants.append(("sigflip", flip_bit(sig, rng.randrange(len(sig) * 8)), cs["msg"]))
+            variants.append(("msgflip", sig, flip_bit(cs["msg"], 0) if cs["msg"] else b"x"))
+            first = len(presented)
+            if form == "DER":
+                der_index = first
+            for vname, sg, mg in variants:
+                presented.append((cs, form, vname, sg, mg))
+                ops.append({"op": "verify", "id": cs["id"], "sig": sg.hex(), "data": mg.hex(), "kw": {}})
+                chk.append(("verify", len(presented) - 1))
+            ops.append({"op": "match_sig", "ids": [f"decoy{cv}", cs["id"]], "sig": sig.hex(), "data": cs["msg"].hex(), "kw": {}})
+            chk.append(("match", first))
+        pubpem = O.pem("PUBLIC KEY", O.spki_of(["ecc", cv, None, cs["Q"][0], cs["Q"][1]]))
+        ops.append({"op": "cli", "files": {"p.pem": pubpem.hex(), "d.bin": cs["msg"].hex(), "s.bin": der.hex()},
+                    "args": ["signature", "verify", "-k", "@p.pem", "-i", "@d.bin", "-s", "@s.bin"], "outputs": []})
+        chk.append(("cli", der_index))
     res = impl.run(ops)
-    n = 0
-    for chk, rr in zip(chks, res):
-        if chk is None:
+    # model: candidate list of every presented signature -> predicted verdict
+    predicted = [None] * len(presented)
+    if model_ok:
+        exprs = [f"run_case 9 [{vlib.coq_lit(VB(sg))}; VInt {O.CURVES[cs['cv']]['bits']}]" for (cs, form, vname, sg, mg) in presented]
+        batches = [exprs[i:i + 40] for i in range(0, len(exprs), 40)]
+        bres = vlib.run_model_cases("c08v", "Value SigEncModel", ["VList [" + "; ".join(b_) + "]" for b_ in batches], shard=6, jobs=8)
+        mres = [x for v in bres for x in v[1]]
+        for i, ((cs, form, vname, sg, mg), mv) in enumerate(zip(presented, mres)):
+            c = O.CURVES[cs["cv"]]
+            h = ["sha256", "sha384", "sha512"][cs["cv"]]
+            dg = O.HASHES[h](mg).digest()
+            ok_ = False
+            if mv[0] == "l":
+                for cand in mv[1]:
+                    rs = O.parse_der_sig(cand[1])
+                    if rs and O.ecdsa_verify(c, cs["Q"], dg, rs[0], rs[1]):
+                        ok_ = True
+            predicted[i] = ok_
+    n = ndis = 0
+    for ck, rr in zip(chk, res):
+        if ck is None:
             continue
-        cv, form, sig, msg, Q, r, s = chk
+        kind_, i = ck
+        cs, form, vname, sg, mg = presented[i]
+        cv = cs["cv"]
         n += 1
-        if rr[0] != "ok" or rr[1] is not True:
-            rep.failing(f"verify_signature({form}):{CNAME[cv]}:L={len(sig)}",
-                        f"a valid {CNAME[cv]} signature in {form} form ({len(sig)} bytes) is not accepted by PublicKeyEcc.verify_signature: {rr}; "
-                        "the independent verifier accepts it",
-                        {"kind": "verify-constructed", "curve": CNAME[cv], "public_key_x": hex(Q[0]), "public_key_y": hex(Q[1]),
-                         "message": msg.hex(), "r": hex(r), "s": hex(s), "signature": sig.hex(), "form": form})
+        replay = {"kind": "verify-constructed", "curve": CNAME[cv], "public_key_x": hex(cs["Q"][0]), "public_key_y": hex(cs["Q"][1]),
+                  "message": mg.hex(), "r": hex(cs["r"]), "s": hex(cs["s"]), "signature": sg.hex(), "form": form, "variant": vname,
+                  "api": {"verify": "PublicKeyEcc.verify_signature", "match": "get_matching_key_id_from_signature",
+                          "cli": "nxpcrypto signature verify"}[kind_]}
+        if kind_ == "verify":
+            got = rr[1] if rr[0] == "ok" else None
+            if vname == "valid" and got is not True:
+                rep.failing(f"verify_signature({form}):{CNAME[cv]}:L={len(sg)}",
+                            f"a valid {CNAME[cv]} signature in {form} form ({len(sg)} bytes; r has {content_len(cs['r'])} and s {content_len(cs['s'])} "
+                            f"DER content bytes) is not accepted by PublicKeyEcc.verify_signature: {rr}; the independent verifier accepts it", replay)
+            elif vname != "valid" and got is True and predicted[i] is not True:
+                rs = O.parse_der_sig(sg) if form == "DER" else (int.from_bytes(sg[:len(sg) // 2], "big"), int.from_bytes(sg[len(sg) // 2:], "big"))
+                h = ["sha256", "sha384", "sha512"][cv]
+                if not (rs and O.ecdsa_verify(O.CURVES[cv], cs["Q"], O.HASHES[h](mg).digest(), rs[0], rs[1])):
+                    rep.failing(f"verify_signature({form}):{CNAME[cv]}:modified-accepted", "a modified message/signature verifies", replay)
+            elif got is None and rr[0] != "ok":
+                rep.failing(f"verify_signature({form}):{CNAME[cv]}:exception", f"verify_signature raised: {rr}", replay)
+            if predicted[i] is not None and got is not None and got != predicted[i]:
+                ndis += 1
+                if ndis <= 3:
+                    vlib.log(f"  disagreement verify_signature candidates: {form} {vname} {sg.hex()[:60]}.. impl {got} model+verifier {predicted[i]}")
+        elif kind_ == "match":
+            if rr[0] != "ok" or rr[1] != 1:
+                rep.failing(f"get_matching_key_id_from_signature({form}):{CNAME[cv]}:L={len(sg)}",
+                            f"the key under which the {form} signature is valid is not found: {rr}", replay)
+        else:
+            txt = rr[1]["stdout"] if rr[0] == "ok" else ""
+            if "IS matching" not in txt:
+                rep.failing(f"nxpcrypto-signature-verify(DER):{CNAME[cv]}:L={len(sg)}", f"nxpcrypto signature verify printed {txt!r} / {str(rr)[:120]}", replay)
+    if model_ok:
+        rep.obligation("correspondence:verify_signature verdict = independent verifier on the model's candidate list", ndis == 0,
+                       f"{ndis} disagreements" if ndis else "")
+    return n, len(cases)
+
+
+def standard_stream(rep, tier, rng, impl, keyspecs, rsa_pems):
+    """Signatures made by *independent* standard implementations (RFC 8017 / FIPS 186-4 written in c08_oracle.py, and the
+    openssl tool) must verify under SPSDK with the same parameters; signatures that differ in one parameter (MGF1 hash,
+    salt length) must not.  Complements the key stream, where SPSDK signs and the independent side verifies."""
+    ops, chk = [], []
+    for kid, kind, nums, lop, note in keyspecs:
+        l2 = dict(lop)
+        l2["id"] = kid
+        ops.append(l2)
+        chk.append(None)
+        pub = (["ecc", nums[1], None, nums[3], nums[4]] if kind == "ecc" else ["rsa", nums[1], nums[2], None, None, None])
+        for h in ("sha256", "sha384", "sha512"):
+            msg = rng.randbytes(rng.choice([0, 3, 32, 150]))
+            dg = O.HASHES[h](msg).digest()
+            hl = len(dg)
+            sigs = []       # (label, signature, kw, data)
+            if kind == "rsa":
+                n_, e_, d_ = nums[1], nums[2], nums[3]
+                sigs.append(("pkcs1", O.rsa_sign(n_, e_, d_, dg, h, False), {"algorithm": h}, msg))
+                sigs.append(("pss", O.rsa_sign(n_, e_, d_, dg, h, True, rng.randbytes(hl)), {"algorithm": h, "pss_padding": True}, msg))
+                sigs.append(("pss-prehashed", O.rsa_sign(n_, e_, d_, dg, h, True, rng.randbytes(hl)),
+                             {"algorithm": h, "pss_padding": True, "prehashed": True}, dg))
+                other = "sha256" if h != "sha256" else "sha512"
+                sigs.append(("pss-mgf1-" + other, O.rsa_sign(n_, e_, d_, dg, h, True, rng.randbytes(hl), mgf_hname=other),
+                             {"algorithm": h, "pss_padding": True}, msg))
+                sigs.append(("pss-salt0", O.rsa_sign(n_, e_, d_, dg, h, True, b""), {"algorithm": h, "pss_padding": True}, msg))
+                sigs.append(("pss-as-pkcs1", sigs[1][1], {"algorithm": h}, msg))
+                if kid in rsa_pems:
+                    o1 = O.openssl_sign(SCRATCH, rsa_pems[kid], msg, h, pss=True)
+                    if o1:
+                        sigs.append(("openssl-pss", o1, {"algorithm": h, "pss_padding": True}, msg))
+                    o2 = O.openssl_sign(SCRATCH, rsa_pems[kid], msg, h, pss=True, mgf1_hname=other)
+                    if o2:
+                        sigs.append(("openssl-pss-mgf1-" + other, o2, {"algorithm": h, "pss_padding": True}, msg))
+            else:
+                c = O.CURVES[nums[1]]
+                rs = None
+                while rs is None:
+                    rs = O.ecdsa_sign(c, nums[2], dg, rng.randrange(1, c["n"]))
+                sz = c["size"]
+                sigs.append(("raw", rs[0].to_bytes(sz, "big") + rs[1].to_bytes(sz, "big"), {"algorithm": h}, msg))
+                sigs.append(("der", O.der_sig(*rs), {"algorithm": h, "der_format": True}, msg))
+                sigs.append(("raw-prehashed", rs[0].to_bytes(sz, "big") + rs[1].to_bytes(sz, "big"), {"algorithm": h, "prehashed": True}, dg))
+                sigs.append(("raw-high-s", rs[0].to_bytes(sz, "big") + (c["n"] - rs[1]).to_bytes(sz, "big"), {"algorithm": h}, msg))
+            for label, sig, kw, data in sigs:
+                expect = indep_verify(pub, data, sig, kw)
+                ops.append({"op": "verify", "id": kid, "sig": sig.hex(), "data": data.hex(), "kw": kw})
+                chk.append((kid, kind, h, label, sig, kw, data, expect, note))
+    res = impl.run(ops, timeout=1800)
+    n = 0
+    for ck, r in zip(chk, res):
+        if ck is None:
+            continue
+        kid, kind, h, label, sig, kw, data, expect, note = ck
+        n += 1
+        got = r[1] if r[0] == "ok" else None
+        if got is not expect:
+            kd = {"type": note} if kind == "ecc" else {"type": note, "pem": rsa_pems.get(kid, b"").decode("ascii", "replace")}
+            rep.failing(f"verify:{kind}:{h}:{label}:{'standard-signature-rejected' if expect else 'nonstandard-signature-accepted'}",
+                        f"a signature made by the independent implementation ({label}, {h}) is "
+                        + ("valid with these parameters but verify_signature returns " if expect else "not valid with these parameters but verify_signature returns ") + str(r),
+                        {"kind": "verify-standard", "key": kd, "data": data.hex(), "kw": kw, "signature": sig.hex(), "made_by": label,
+                         "expected": expect})
     return n
 
 
@@ -1215,10 +1361,17 @@ def _run(rep, tier, rng):
                                             "negative_verifications": stats["negatives"], "openssl_invocations": stats["openssl"]})
     lap('real keys stream')
     # (T2-C) constructed valid signatures of chosen DER length
-    nrec = recovered_stream(rep, tier, rng, impl)
-    rep.add_stream("valid signatures with chosen DER length (public key recovered from r, s, message) through verify_signature", nrec, nrec,
-                   samples=[], exhaustive=False)
+    nrec, nrk = recovered_stream(rep, tier, rng, impl, model_ok)
+    rep.add_stream("valid signatures with chosen DER length classes (public key recovered from r, s, message) through verify_signature, "
+                   "get_matching_key_id_from_signature and nxpcrypto signature verify, with modified variants", nrec, nrk,
+                   samples=[], exhaustive=False, extra={"recovered_keys": nrk})
     lap('constructed signatures')
+    rsa_pems = {k[0]: bytes.fromhex(k[3]["pem"]) for k in keyspecs if k[1] == "rsa"}
+    nstd = standard_stream(rep, tier, rng, impl, keyspecs, rsa_pems)
+    rep.add_stream("signatures made by the independent RFC 8017 / FIPS 186-4 implementation and by openssl (PKCS#1 v1.5, PSS with SHA-256/384/512 "
+                   "and MGF1 over the same hash, ECDSA raw/DER) verified by SPSDK; one-parameter deviations must be rejected", nstd, nstd,
+                   samples=[], exhaustive=False)
+    lap('standard signatures')
     # (T2-D) command line
     ex_ops, ex_ix = [], []
     for kid, kind, nums, lop, note in keyspecs:
